@@ -189,6 +189,9 @@ fn generated() -> Vec<(String, String)> {
     shapes.iter().map(|(l, n)| (format!("generated: paths differing by {n} x 2^{l} cells of ap"), gen_align_program(*l, *n))).collect()
 }
 
+#[path = "../shared/e2e_corpus.rs"]
+mod e2e_corpus;
+
 fn corpus() -> Vec<std::path::PathBuf> {
     let mut out = vec![];
     if let Ok(rd) = std::fs::read_dir("/verif/contracts/native/corpus/c17") { for e in rd.filter_map(|e| e.ok()) { out.push(e.path()); } }
@@ -210,6 +213,9 @@ fn __verif_n_c17_casm_paths() {
     let (mut ok_files, mut funs, mut paths, mut skipped) = (0u64, 0usize, 0usize, 0u64);
     let mut fails = vec![];
     let mut inputs: Vec<(String, String)> = files.iter().filter_map(|f| std::fs::read_to_string(f).ok().map(|s| (f.display().to_string(), s))).collect();
+    let e2e = e2e_corpus::e2e_programs(env!("CARGO_MANIFEST_DIR"));
+    let n_e2e = e2e.len();
+    inputs.extend(e2e);
     let gens = generated();
     let n_gen = gens.len();
     inputs.extend(gens);
@@ -224,13 +230,13 @@ fn __verif_n_c17_casm_paths() {
             _ => skipped += 1,
         }
     }
-    let bound = format!("{} Sierra programs ({} compiled, {} skipped; {n_gen} generated with path differences around 2^15 and 2^16 cells, {gen_ok} of them checked), {} functions with a Known declared change, {} entry-to-ret paths", files.len() + n_gen, ok_files, skipped, funs, paths);
+    let bound = format!("{} Sierra programs ({n_e2e} from the e2e test files; {} compiled, {} skipped; {n_gen} generated with path differences around 2^15 and 2^16 cells, {gen_ok} of them checked), {} functions with a Known declared change, {} entry-to-ret paths", files.len() + n_gen + n_e2e, ok_files, skipped, funs, paths);
     for (input, why) in &fails {
         let short = input.rsplit('/').next().unwrap_or(input);
         println!("VERIF-N id=N/n_c17_casm_paths/declared_vs_emitted:{short} status=fail key=\"{}\" input=\"{input}\" detail=\"{short}: {}\" bound=\"{bound}\"", why.replace('"', "'"), why.replace('"', "'"));
     }
     if funs == 0 { println!("VERIF-N id=N/n_c17_casm_paths/declared_vs_emitted status=unknown"); }
-    else if fails.len() < files.len() { println!("VERIF-N id=N/n_c17_casm_paths/declared_vs_emitted status=ok cases={} distinct={} bound=\"{bound}\"", paths.max(1), funs.max(1)); }
+    else if fails.len() < files.len() + n_gen + n_e2e { println!("VERIF-N id=N/n_c17_casm_paths/declared_vs_emitted status=ok cases={} distinct={} bound=\"{bound}\"", paths.max(1), funs.max(1)); }
 }
 
 /// Second sentence of C17: "every Sierra statement's code occupies exactly the bytecode range recorded
@@ -244,8 +250,10 @@ fn __verif_n_c17_statement_ranges() {
     let files = corpus();
     let (mut okf, mut nst) = (0u64, 0usize);
     let mut fail: Option<(String, String)> = None;
-    for f in &files {
-        let Ok(src) = std::fs::read_to_string(f) else { continue };
+    let mut inputs: Vec<(String, String)> = files.iter().filter_map(|f| std::fs::read_to_string(f).ok().map(|s| (f.display().to_string(), s))).collect();
+    inputs.extend(e2e_corpus::e2e_programs(env!("CARGO_MANIFEST_DIR")));
+    inputs.extend(generated());
+    for (fname, src) in inputs {
         let h = std::thread::Builder::new().stack_size(128 << 20).spawn(move || catch_unwind(AssertUnwindSafe(|| -> Option<Result<usize, String>> {
             let program = ProgramParser::new().parse(&src).ok()?;
             let info = ProgramRegistryInfo::new(&program).ok()?;
@@ -269,8 +277,8 @@ fn __verif_n_c17_statement_ranges() {
         }))).unwrap();
         match h.join() {
             Ok(Ok(Some(Ok(n)))) => { okf += 1; nst += n; }
-            Ok(Ok(Some(Err(w)))) => { fail = Some((f.display().to_string(), w)); break; }
-            Ok(Err(_)) => { fail = Some((f.display().to_string(), "panic".into())); break; }
+            Ok(Ok(Some(Err(w)))) => { fail = Some((fname, w)); break; }
+            Ok(Err(_)) => { fail = Some((fname, "panic".into())); break; }
             _ => {}
         }
     }
